@@ -406,8 +406,18 @@ fn c07_extend_layers() {
     let mut program = bare_program(&arena);
     let f = program.str_interner.intern(&arena, "f");
     let g = program.str_interner.intern(&arena, "g");
-    let (x, ex) = two_layer_object(f, g);
-    let (y, ey) = two_layer_object(f, g);
+    let (mut x, ex) = two_layer_object(f, g);
+    let (mut y, ey) = two_layer_object(f, g);
+    // object-level asserts: each of the four layers carries one or not
+    let null_expr: &ir::Expr<'_> = arena.alloc(ir::Expr::Null);
+    let ctx = crate::span::SpanContextId::kani_zero();
+    let span = program.span_mgr.intern_span(ctx, 0, 0);
+    let one_assert: &[ir::Assert<'_>] = arena.alloc_slice(&[ir::Assert { span, cond: null_expr, cond_span: span, msg: None }]);
+    let has_assert: [bool; 4] = kani::any();
+    if has_assert[0] { y.self_layer.asserts = one_assert; }
+    if has_assert[1] { y.super_layers[0].asserts = one_assert; }
+    if has_assert[2] { x.self_layer.asserts = one_assert; }
+    if has_assert[3] { x.super_layers[0].asserts = one_assert; }
     let r = program.extend_object(&x, &y).view();
     assert!(r.super_layers.len() == 3, "2 + 2 layers");
     assert!(same_ent(entry_of(&r.self_layer, f), ey[0]), "layer 0 = Y.self");
@@ -415,7 +425,13 @@ fn c07_extend_layers() {
     assert!(same_ent(entry_of(&r.super_layers[1], f), ex[0]), "layer 2 = X.self");
     assert!(same_ent(entry_of(&r.super_layers[2], f), ex[1]), "layer 3 = X.super");
     assert!(entry_of(&r.self_layer, g).kind == 0, "no other name appears");
-    assert!(!r.asserts_checked.get(), "object asserts of the combined object are still to be checked");
+    assert!(r.self_layer.asserts.len() == has_assert[0] as usize && r.super_layers[0].asserts.len() == has_assert[1] as usize
+        && r.super_layers[1].asserts.len() == has_assert[2] as usize && r.super_layers[2].asserts.len() == has_assert[3] as usize,
+        "every layer keeps its asserts");
+    if has_assert[0] || has_assert[1] || has_assert[2] || has_assert[3] {
+        assert!(!r.asserts_checked.get(), "an object that inherits an assert from ANY layer must still check it against the combined object");
+    }
+    kani::cover!(has_assert[3] && !has_assert[0] && !has_assert[1] && !has_assert[2], "the only assert sits in the deepest layer of the left operand");
     kani::cover!(ey[0].kind == 1 && ex[0].kind == 2 && ex[1].kind == 0, "Y overrides a hidden field of X with default visibility");
     core::mem::forget((x, y, r));
     core::mem::forget(program);
